@@ -68,7 +68,7 @@ def render_location(text, pos, endpos, lineno, indent, strip, out):
         strip = False
         out.append(indent + line.rstrip().expandtabs())
     out.append(indent + lines[lineno].rstrip().expandtabs())
-    out.append(indent + ' ' * pos + '^' * length)
+    out.append(indent + ' ' * pos + '^' * max(length, 1))
 
 
 # FIXME: move the error formatting into the exception classes themselves
